@@ -47,6 +47,21 @@ def specRun (F : Facts) (p : Prepared) : Option (RunOut × String) :=
   | .select s => Spec.Select.batch F.eval p.qy s p.joined p.files
   | .aggregate a => Spec.Agg.batch F.eval p.qy a p.joined p.files
 
+/-- the deviating answer an open finding predicts for the prepared run (`Spec.Agg.predicted`; `none` = no finding applies) -/
+def predictedRun (F : Facts) (p : Prepared) : Option RunOut :=
+  match p.qy.stmt with
+  | .select _ => none
+  | .aggregate a => Spec.Agg.predicted F.eval p.qy a p.joined p.files
+
+/-- the predicted deviating answer for the texts -/
+def predictedText (F : Facts) (defsText queryText : List Char) (files : List (List Nat)) : Option RunOut :=
+  match parseText (lexOracles F) (regexValidFn F) defsText, parseText (lexOracles F) (regexValidFn F) queryText with
+  | .stmt defs, .stmt query =>
+    match addTables defs, stmtOf query with
+    | some tables, some (stmt, fromTable, join) => (prepare F tables stmt fromTable join files).bind (predictedRun F)
+    | _, _ => none
+  | _, _ => none
+
 /-- the specification's answer for the texts (text format, `single_result = false`) -/
 def specText (F : Facts) (defsText queryText : List Char) (files : List (List Nat)) : Option (RunOut × String) :=
   match parseText (lexOracles F) (regexValidFn F) defsText, parseText (lexOracles F) (regexValidFn F) queryText with
